@@ -49,10 +49,14 @@ theorem debugUpgrader_conds :
 /-- Handshake I/O buffers: taken from the pool with the configured size and returned. -/
 theorem handshake_pool :
     Gen.facts_ws_pool.filter (fun s => s.startsWith "Upgrader_Upgrade:" || s.startsWith "Dialer_Upgrade:") =
-      ["Dialer_Upgrade: pbufio.GetReader(conn, nonZero(d.ReadBufferSize, DefaultClientReadBufferSize), )",
+      ["Dialer_Upgrade: defer pbufio.PutReader(br)",
+       "Dialer_Upgrade: defer pbufio.PutWriter(bw)",
+       "Dialer_Upgrade: pbufio.GetReader(conn, nonZero(d.ReadBufferSize, DefaultClientReadBufferSize), )",
        "Dialer_Upgrade: pbufio.GetWriter(conn, nonZero(d.WriteBufferSize, DefaultClientWriteBufferSize), )",
        "Dialer_Upgrade: pbufio.PutReader(br)",
        "Dialer_Upgrade: pbufio.PutWriter(bw)",
+       "Upgrader_Upgrade: defer pbufio.PutReader(br)",
+       "Upgrader_Upgrade: defer pbufio.PutWriter(bw)",
        "Upgrader_Upgrade: pbufio.GetReader(conn, nonZero(u.ReadBufferSize, DefaultServerReadBufferSize), )",
        "Upgrader_Upgrade: pbufio.GetWriter(conn, nonZero(u.WriteBufferSize, DefaultServerWriteBufferSize), )",
        "Upgrader_Upgrade: pbufio.PutReader(br)",
